@@ -536,4 +536,37 @@ theorem hexSized_bits {sz ds : List Nat} {v : BMNumber}
       · cases h
       · cases h; exact hs
 
+/-! ### ImportUint / ImportBytes / ExportUint64 -/
+
+theorem valOf_importUint {w v : Nat} (optBits : Nat) (hv : v < 2 ^ w) (hw : w % 8 = 0) :
+    valOf (importUint w v optBits).bytes = v := by
+  show valOf (toBytesLE (w / 8) v) = v
+  rw [valOf_toBytesLE]
+  apply Nat.mod_eq_of_lt
+  have e : (256 : Nat) ^ (w / 8) = 2 ^ w := by
+    have : w = 8 * (w / 8) := by omega
+    calc (256 : Nat) ^ (w / 8) = (2 ^ 8) ^ (w / 8) := by rfl
+      _ = 2 ^ (8 * (w / 8)) := by rw [Nat.pow_mul]
+      _ = 2 ^ w := by rw [← this]
+  rw [e]; exact hv
+
+theorem exportUint64_importUint {w v : Nat} (optBits : Nat) (hv : v < 2 ^ w) (hw : w % 8 = 0)
+    (h64 : w ≤ 64) : exportUint64 (importUint w v optBits) = some v := by
+  have hl : (importUint w v optBits).bytes.length = w / 8 := toBytesLE_length _ _
+  unfold exportUint64
+  rw [if_neg (by rw [hl]; omega), valOf_importUint optBits hv hw]
+
+theorem importUint64_wf {v : Nat} (_hv : v < 2 ^ 64) : WFU64 (importUint 64 v 0) :=
+  ⟨rfl, bytesOK_toBytesLE _ _, toBytesLE_length _ _, rfl⟩
+
+theorem importUint_reimport {w v : Nat} (optBits : Nat) (hv : v < 2 ^ w) (hw : w % 8 = 0) (h64 : w ≤ 64) :
+    (exportString (importUint w v optBits)).bind importString = some ⟨toBytesLE 8 v, 64, .unsigned⟩ := by
+  have h := unsigned_reimport_is_64 (importUint w v optBits) rfl (bytesOK_toBytesLE _ _)
+    (by show (toBytesLE (w / 8) v).length ≤ 8; rw [toBytesLE_length]; omega)
+  rw [valOf_importUint optBits hv hw] at h
+  exact h
+
+theorem valOf_reverse_importBytes (be : List Nat) (bits : Nat) :
+    valOf (importBytes be bits).bytes = valOf be.reverse := rfl
+
 end BMV.Numbers
